@@ -121,4 +121,31 @@ class C14(Spec):
         return [core_q('C14.verify.L12', ['PROP_C14', 'DIRTY_PRESTATE'], L=12)]
 
 
-PROPS.update({'C02': C02(), 'C03': C03(), 'C06': C06(), 'C14': C14()})
+class C04(Spec):
+    functions = CORE_FUNCS + ['jwt_checker_claim_set', 'jwt_checker_claim_del', 'jwt_checker_claim_get',
+                              'jwt_checker_time_leeway', '__setter', '__deleter', 'jwt_set_str', 'jwt_obj_check']
+
+    def queries(self, tier, bld):
+        d = ['PROP_C04', 'CLAIMS_FULL', 'CLAIMS_SETUP', 'CLOCK_RANGE', 'VJ_MAXM=5']
+        qs = [core_q('C04.claims.K2.L12', d + ['KOPS=2'], L=12)]
+        if tier == 'thorough':
+            qs.append(core_q('C04.claims.K3.L12', d + ['KOPS=3'], L=12, budget=1800))
+        for q in qs:
+            q.bounds.update({'VJ_MAXM': 5, 'KOPS': 2, 'CLEN': 3, 'clock': '[0,2^62]', 'leeway': '[-2^40,2^40]'})
+        return qs
+
+
+GATE_UNITS = ['libjwt/jwt.c', 'libjwt/jwt-memory.c', 'libjwt/base64.c']
+
+
+class C09(Spec):
+    functions = ['jwt_sign', 'jwt_verify_sig', '_verify_sha_hmac', '__check_hmac', '__check_key_bits', 'sign_sha_hmac',
+                 'jwt_base64uri_decode', 'jwt_base64uri_encode', 'base64_decode', 'base64_encode', 'jwt_strcmp']
+
+    def queries(self, tier, bld):
+        b = {'alg': 'all 14 signing algorithms', 'kty': 'all 4', 'bits': '[0, 2^31)', 'sig text': 'all 4-char strings'}
+        return [Query('C09.gate.sign', 'gate.c', GATE_UNITS, defines=['SIDE_SIGN', 'VF_FREE_NOOP'], unwind=14, bounds=b),
+                Query('C09.gate.verify', 'gate.c', GATE_UNITS, defines=['SIDE_VERIFY', 'VF_FREE_NOOP'], unwind=14, bounds=b)]
+
+
+PROPS.update({'C09': C09(), 'C04': C04(), 'C02': C02(), 'C03': C03(), 'C06': C06(), 'C14': C14()})
